@@ -4,6 +4,7 @@ import (
 	"strings"
 
 	"verif/ir"
+	"verif/pgen"
 	"verif/ref"
 	"verif/sch"
 )
@@ -369,19 +370,7 @@ func (ty *typer) of(e *ir.Expr) *sty {
 }
 
 // dotted is the validator's identity of an access chain rooted in a variable ("" if e is not such a chain).
-func dotted(e *ir.Expr) (string, []string) {
-	switch e.Op {
-	case ir.OpVar:
-		return e.Name, []string{e.Name}
-	case ir.OpAccess:
-		d, parts := dotted(e.Args[0])
-		if d == "" {
-			return "", nil
-		}
-		return d + "." + e.Name, append(append([]string{}, parts...), e.Name)
-	}
-	return "", nil
-}
+func dotted(e *ir.Expr) (string, []string) { return pgen.Dotted(e) }
 
 // policyFacts collects the syntactic facts the matchers use.
 type policyFacts struct {
